@@ -230,5 +230,5 @@ PROP = Property(
         "strings are Unicode text without lone surrogates (cannot be UTF-8 encoded)",
         "generic controls never carry a library-known OID; scope in 0..2 and derefAliases in 0..3 (the enum types)",
     ],
-    technique="property-based round-trip testing (Hypothesis) + exhaustive length-boundary sweep",
+    technique="property-based round-trip testing (Hypothesis) + exhaustive length-boundary / magic-value sweep + near-collision twins and in-place edits + atheris campaign (thorough)",
 )
